@@ -6,14 +6,16 @@ O2 == O1 + (676)
 O3 == O2 + (NWalks)
 O4 == O3 + (NRare)
 O5 == O4 + NHist
-Count == O5 + NTwinHist
+O6 == O5 + NTwinHist
+Count == O6 + NRelHist
 ItemAt(g) ==
   IF g <= O1 THEN Depth1At(g - 0)
   ELSE IF g <= O2 THEN Depth2At(g - O1)
   ELSE IF g <= O3 THEN WalkAt(g - O2)
   ELSE IF g <= O4 THEN RareAt(g - O3)
   ELSE IF g <= O5 THEN HistAt(g - O4)
-  ELSE TwinSeedAt(g - O5)
+  ELSE IF g <= O6 THEN TwinSeedAt(g - O5)
+  ELSE RelHistAt(g - O6)
 Histories == IF "VERIF_TIER" \in DOMAIN IOEnv /\ IOEnv.VERIF_TIER = "thorough" THEN 300 ELSE 40
 VARIABLE n
 INSTANCE GenBase
